@@ -52,6 +52,7 @@ func c11Spec(p c11Params, mapMonitor bool) *VsSpec {
 	var s *sess
 	var by *Cli
 	var byOK bool
+	byMidOK := true
 	var byStream int
 	body := func() {
 		if mapMonitor {
@@ -93,6 +94,17 @@ func c11Spec(p c11Params, mapMonitor bool) *VsSpec {
 			s.c.SendRaw(b[:5])
 		case "afterwrite":
 			s.c.Send(p.Dotu, &wire.Msg{Type: wire.Tclunk, Tag: 200, Fid: 0})
+		case "halfclosed":
+			// the client shuts down its sending side while the server's writer is blocked
+			// inside Write (client not reading): the server sees EOF but cannot finish with
+			// this connection yet - the others must not notice; then the client goes away
+			s.c.SrvEnd.StallOutgoing()
+			s.c.Send(p.Dotu, &wire.Msg{Type: wire.Tstat, Tag: 200, Fid: 0})
+			vs.Idle()
+			s.c.End.CloseWrite()
+			vs.Idle()
+			rm := by.Rpc(&wire.Msg{Type: wire.Tstat, Tag: 6, Fid: 0})
+			byMidOK = rm != nil && rm.Type == wire.Rstat
 		case "stalledwriter":
 			// the client stopped reading: the server's writer is blocked inside Write when the client goes away
 			s.c.SrvEnd.StallOutgoing()
@@ -174,6 +186,9 @@ func c11Spec(p c11Params, mapMonitor bool) *VsSpec {
 		}
 		if !byOK {
 			return v("bystander-disturbed", "the bystander connection no longer answers")
+		}
+		if !byMidOK {
+			return v("bystander-disturbed/while-victim-half-closed", "while the disconnecting client had shut down its sending side and was not reading, the bystander connection got no answer")
 		}
 		return nil
 	}, nil)
@@ -355,7 +370,7 @@ func c11Scenarios(tier string) []Scenario {
 			out = append(out, c11Scenario(q))
 		}
 	}
-	closes := []string{"boundary", "midframe", "afterwrite", "stalledwriter"}
+	closes := []string{"boundary", "midframe", "afterwrite", "stalledwriter", "halfclosed"}
 	parkedSets := [][]string{{}, {"clunk"}, {"walk"}, {"read"}, {"stat"}, {"remove"}, {"clunk", "read"}, {"walk", "write"}}
 	P := 2
 	if tier == "thorough" {
@@ -372,10 +387,10 @@ func c11Scenarios(tier string) []Scenario {
 			if len(ps) == 2 {
 				pp = P - 1
 			}
-			if closes[i%4] == "stalledwriter" && pp > 1 {
+			if (closes[i%5] == "stalledwriter" || closes[i%5] == "halfclosed") && pp > 1 {
 				pp-- // two more requests are in flight at the disconnect
 			}
-			add(c11Params{Prefix: prefix, Parked: ps, Close: closes[i%4], Maxpend: []int{0, 2}[i%2], Dotu: i%4 < 2, P: pp})
+			add(c11Params{Prefix: prefix, Parked: ps, Close: closes[i%5], Maxpend: []int{0, 2}[i%2], Dotu: i%4 < 2, P: pp})
 		}
 	}
 	if tier == "thorough" {
@@ -393,7 +408,7 @@ func c11Scenarios(tier string) []Scenario {
 func init() {
 	register(&Property{ID: "C11", Level: "model_checking",
 		Technique: "stateless model checking of the real server under a controlled scheduler; leaks decided at the final quiescent state",
-		Rule:      "every schedule with at most P preemptions from the disconnect onwards, per scenario: every prefix of a history that leaves fids attached/walked/open/created/clunked x set of requests parked in the implementation x every release order x disconnect at a frame boundary / mid-frame / right after a request / while the server's writer is blocked inside Write (client stopped reading) x Maxpend 0/2 x dialect, with a bystander connection; plus sequential histories in which a request is held on a fid across its clunk / remove and the re-binding of its number, then completes, then the client disconnects; 9 histories on the real Ufs after which no descriptor may refer into the exported tree; distinct = distinct per-object operation orders",
+		Rule:      "every schedule with at most P preemptions from the disconnect onwards, per scenario: every prefix of a history that leaves fids attached/walked/open/created/clunked x set of requests parked in the implementation x every release order x disconnect at a frame boundary / mid-frame / right after a request / while the server's writer is blocked inside Write (client stopped reading; also after the client half-closed) x Maxpend 0/2 x dialect, with a bystander connection; plus sequential histories in which a request is held on a fid across its clunk / remove and the re-binding of its number, then completes, then the client disconnects; 9 histories on the real Ufs after which no descriptor may refer into the exported tree; distinct = distinct per-object operation orders",
 		Assumptions: []string{"code between two synchronisation operations is atomic (race-free executions)", "a client disconnect is the client end closing: the server reads EOF after draining, its writes fail", "the Ufs file-descriptor clause is checked by sequential histories on the real Ufs with /proc/self/fd as the oracle (a garbage collection in between could only hide a leak, never invent one)"},
 		Scenarios:   c11Scenarios, QuickS: 180, ThoroughS: 1500})
 }
